@@ -834,6 +834,10 @@ fn measurements_from_packet(
     )
 }
 
+#[cfg(pendulum_project_ntpd_rs_verif)]
+#[path = "/verif/hooks/ntp_proto_source.rs"]
+pub mod verif_hook;
+
 #[cfg(test)]
 #[expect(
     clippy::too_many_lines,
